@@ -3,10 +3,13 @@
 The real video_filter_thread / process_data / accumulate / normalize (filter.c, reached by #include from
 harness/h_filter.c; channel.c, frame_iterator.c, throttler.c, components.c compiled unmodified from the tree under
 test) run single-threaded against a stub platform on small rings pre-filled with a non-zero byte; the harness plays
-source and sink.  The extracted Coq model (Average.Window.run_thread over Flocq binary32) is run on the same
-frames with the packetisation the filter actually saw, and every output frame is compared bit for bit.  An
-independent oracle (exact rational arithmetic, fractions.Fraction) states C10 directly over the implementation's
-output."""
+source and sink.  A case is a HISTORY OF ONE FILTER INSTANCE: one or more acquisitions (video_filter_configure(k),
+video_filter_start, frames, stop, join -- the sequence acquire.c performs) on the same struct video_filter_s and the
+same two rings, so that anything the filter carries from one acquisition into the next is visible.  The extracted
+Coq model (Average.Window.run_acquisitions = the fold of run_thread over the acquisitions, Flocq binary32) is run on
+the same frames with the packetisation the filter actually saw, and every output frame of every acquisition is
+compared bit for bit.  An independent oracle (exact rational arithmetic, fractions.Fraction) states C10 directly over
+the implementation's output, acquisition by acquisition."""
 import os
 from fractions import Fraction
 
@@ -105,16 +108,39 @@ def frame_bytes(op):
     return align8(HEADER + c * w * h * BPP.get(ty, 0))
 
 
+LATER = "@later-acquisition"      # key suffix: the failure shows in an acquisition that is not the filter's first
+
+
+def base_key(key):
+    return key.split("@")[0]
+
+
+def view(case, a):
+    """Acquisition a of a case as a stand-alone single-acquisition description (what in_domain / oracle_acq read)."""
+    acq = case["acqs"][a]
+    return {"k": acq["k"], "incap": case["incap"], "outcap": case["outcap"], "prefill": case["prefill"], "steps": acq["steps"]}
+
+
+def bypass(acq):
+    """source.c: enable_filter = frame_average_count > 1; otherwise the frames go straight to the sink."""
+    return acq["k"] <= 1
+
+
 def case_lines(case):
-    ls = ["new %d %d %d %02x" % (case["k"], case["incap"], case["outcap"], case["prefill"])]
-    for j, st in enumerate(case["steps"]):
-        if j:
-            ls.append("p")
-        for op in st:
-            if op[0] == "f":
-                ls.append("f %d %d %d %d %d %d %s" % tuple(op[1:]))
-            else:
-                ls.append("r")
+    ls = []
+    for a, acq in enumerate(case["acqs"]):
+        if a == 0:
+            ls.append("new %d %d %d %02x" % (acq["k"], case["incap"], case["outcap"], case["prefill"]))
+        else:
+            ls.append("acq %d" % acq["k"])
+        for j, st in enumerate(acq["steps"]):
+            if j:
+                ls.append("p")
+            for op in st:
+                if op[0] == "f":
+                    ls.append("f %d %d %d %d %d %d %s" % tuple(op[1:]))
+                else:
+                    ls.append("r")
     ls.append("end")
     return ls
 
@@ -127,20 +153,26 @@ def parse_case(lines):
         if not w or w[0].startswith("#"):
             continue
         if w[0] == "new":
-            case = {"k": int(w[1]), "incap": int(w[2]), "outcap": int(w[3]), "prefill": int(w[4], 16), "steps": [[]], "tags": ["corpus"]}
+            case = {"incap": int(w[2]), "outcap": int(w[3]), "prefill": int(w[4], 16),
+                    "acqs": [{"k": int(w[1]), "steps": [[]]}], "tags": ["corpus"]}
+        elif case is None:
+            continue
+        elif w[0] == "acq":
+            case["acqs"].append({"k": int(w[1]), "steps": [[]]})
         elif w[0] == "f":
-            case["steps"][-1].append(("f", int(w[1]), int(w[2]), int(w[3]), int(w[4]), int(w[5]), int(w[6]), w[7]))
+            case["acqs"][-1]["steps"][-1].append(("f", int(w[1]), int(w[2]), int(w[3]), int(w[4]), int(w[5]), int(w[6]), w[7]))
         elif w[0] == "r":
-            case["steps"][-1].append(("r",))
+            case["acqs"][-1]["steps"][-1].append(("r",))
         elif w[0] == "p":
-            case["steps"].append([])
+            case["acqs"][-1]["steps"].append([])
         elif w[0] == "end":
             return case
     return case
 
 
-def frames_of(case):
-    return [op for st in case["steps"] for op in st if op[0] == "f"]
+def frames_of(acq):
+    """Frames of one acquisition (or of a view of it), in the order the source writes them."""
+    return [op for st in acq["steps"] for op in st if op[0] == "f"]
 
 
 def gen_pixels(rng, ty, n, mode):
@@ -175,20 +207,30 @@ def gen_pixels(rng, ty, n, mode):
     return out.hex() if out else "-"
 
 
-def gen_case(rng, thorough, count):
+def gen_acq(rng, thorough, count, multi=False, like=None):
+    """One acquisition: dict(k, steps) plus the ring capacities it needs (_incap, _outcap) and what it is made of (_sig).
+    multi: it is one of several acquisitions of a case (smaller images, averaging off in 15%);
+    like:  the _sig of the previous acquisition -- keep its window, sample type and shape (the usual way a runtime is re-used)."""
     r = rng.random()
-    if r < 0.68:
+    if like is not None:
+        k = like[0]
+    elif multi and r < 0.15:
+        k = rng.choice([0, 1, 1])
+    elif r < 0.68 or (multi and r < 0.85):
         k = rng.randint(2, 5)
-    elif r < 0.88:
+    elif r < 0.88 or multi and r < 0.97:
         k = rng.randint(6, 20)
-    elif r < 0.97:
+    elif r < 0.97 or multi:
         k = rng.choice([32, 64, 100, 128, 255, 256])
     else:
         k = rng.choice([257, 300, 512])
-    count("k:2-5" if k <= 5 else "k:6-20" if k <= 20 else "k:32-256" if k <= 256 else "k:>256")
-    ty = rng.choice([0, 1, 2, 3, 5, 6, 7])
+    count("k:0-1 (averaging off, source bypasses the filter)" if k <= 1 else
+          "k:2-5" if k <= 5 else "k:6-20" if k <= 20 else "k:32-256" if k <= 256 else "k:>256")
+    ty = like[1] if like is not None else rng.choice([0, 1, 2, 3, 5, 6, 7])
     count("type:" + INT_TYPES[ty][0])
     maxpx = (48 if k <= 20 else 4) * (6 if thorough else 1)
+    if multi:
+        maxpx = min(maxpx, 12 * (4 if thorough else 1))
     while True:
         c = rng.choice([1, 1, 1, 2, 3])
         w = rng.randint(1, 16 if thorough else 8)
@@ -196,17 +238,28 @@ def gen_case(rng, thorough, count):
         if c * w * h <= maxpx:
             break
     p = rng.choice([1, 1, 1, 1, 2, 7])
+    if like is not None:
+        c, w, h, p = like[2:6]
     npx = c * w * h
-    q = rng.randint(0, 3 if k <= 20 else 2)
-    rem = rng.randint(1, k - 1) if rng.random() < 0.7 else 0
-    n = q * k + rem
-    count("N mod k != 0" if rem else "N mod k = 0")
+    if k <= 1:
+        q, rem = 0, 0
+        n = rng.randint(0, 4)
+    else:
+        q = rng.randint(0, 3 if k <= 20 else 2)
+        rem = rng.randint(1, k - 1) if rng.random() < 0.7 else 0
+        n = q * k + rem
+    if k > 1:
+        count("N mod k != 0" if rem else "N mod k = 0")
     mode = rng.choice(["rand", "rand", "rand", "max", "min", "small", "alt", "edge", "container"])
     count("pixels:" + mode)
     id0 = rng.choice([0, 0, 0, rng.randint(1, 10 ** 6), 1 << 40])
     tags = []
     frames = []
     x = rng.random()
+    if k <= 1:
+        x = 1.0         # averaging off: plain frames only
+    elif multi:
+        x *= 1.6        # fewer out-of-domain acquisitions inside a history (12% instead of 19%)
     special = None
     if x < 0.05:
         special = "shape"
@@ -265,7 +318,37 @@ def gen_case(rng, thorough, count):
         outcap = rng.choice([ab, ab - 8, ab // 2])
     else:
         outcap = max(ab, ab2 if special == "shape" else 0) + 1 + rng.randint(0, 3 * ab)
-    return {"k": k, "incap": incap, "outcap": outcap, "prefill": rng.choice(PREFILLS), "steps": steps, "tags": tags}
+    if k <= 1:
+        outcap = max(outcap, fbmax + 8)     # the source's own frames must fit into the sink's ring
+    return {"k": k, "steps": steps, "_incap": incap, "_outcap": outcap, "_tags": tags, "_sig": (k, ty, c, w, h, p)}
+
+
+def assemble(rng, acqs, tags):
+    """A case from generated acquisitions: both rings are as large as the most demanding acquisition needs."""
+    incap = max(a.pop("_incap") for a in acqs)
+    outcap = max(a.pop("_outcap") for a in acqs)
+    for a in acqs:
+        tags = tags + a.pop("_tags")
+        a.pop("_sig")
+    return {"incap": incap, "outcap": outcap, "prefill": rng.choice(PREFILLS), "acqs": acqs, "tags": tags}
+
+
+def gen_case(rng, thorough, count):
+    """A single acquisition on a fresh filter."""
+    return assemble(rng, [gen_acq(rng, thorough, count)], [])
+
+
+def gen_history(rng, thorough, count):
+    """Two to four acquisitions on ONE filter instance.  In 45% an acquisition re-uses window, sample type and shape of
+    the one before it (only the frames differ), otherwise everything is drawn anew: other k (incl. 0/1 = averaging off
+    and back), other shape, other sample type, any frame count (incl. 0, and not a multiple of k in 70%)."""
+    na = rng.choice([2, 2, 2, 3, 3, 4])
+    count("history:%d acquisitions" % na)
+    acqs = []
+    for a in range(na):
+        like = acqs[-1]["_sig"] if acqs and rng.random() < 0.45 else None
+        acqs.append(gen_acq(rng, thorough, count, multi=True, like=like))
+    return assemble(rng, acqs, ["history"])
 
 
 def sweep_cases(rng, thorough, count):
@@ -292,9 +375,54 @@ def sweep_cases(rng, thorough, count):
                     fb = align8(HEADER + c * w * h * BPP[ty])
                     maxstep = max(len(st) for st in steps) * fb
                     ab = align8(HEADER + 4 * c * w * h)
-                    cases.append({"k": k, "incap": 2 * maxstep + 2 * fb + rng.randint(1, 2 * fb), "outcap": ab + 1 + rng.randint(0, 2 * ab),
-                                  "prefill": rng.choice(PREFILLS), "steps": steps, "tags": ["sweep"]})
+                    cases.append({"incap": 2 * maxstep + 2 * fb + rng.randint(1, 2 * fb), "outcap": ab + 1 + rng.randint(0, 2 * ab),
+                                  "prefill": rng.choice(PREFILLS), "acqs": [{"k": k, "steps": steps}], "tags": ["sweep"]})
                     count("sweep:every packetisation of N<=%d frames" % nmax)
+    return cases
+
+
+def sweep_histories(rng, thorough, count):
+    """Exhaustive small scope over histories: every (k1, N1, k2, N2) with k in 1..3 (4), N in 0..6 (8) -- in particular
+    every way the first acquisition can end inside a window -- and every (N1, N2, N3) in 0..3 for windows 2 and 3.
+    One sample type and shape per history, 1-2 pixels, random packetisation."""
+    cases = []
+    ks = [1, 2, 3, 4] if thorough else [1, 2, 3]
+    nmax = 8 if thorough else 6
+
+    def acq(k, n, ty, c, w, h):
+        mode = rng.choice(["rand", "max", "min", "alt", "edge"])
+        frames = [("f", ty, c, w, h, 1, i, gen_pixels(rng, ty, c * w * h, mode)) for i in range(n)]
+        steps, cur = [], []
+        for i, f in enumerate(frames):
+            cur.append(f)
+            if i < n - 1 and rng.random() < 0.4:
+                steps.append(cur)
+                cur = []
+        steps.append(cur)
+        return {"k": k, "steps": steps}
+
+    def wrap(acqs, ty, c, w, h):
+        fb = align8(HEADER + c * w * h * BPP[ty])
+        ab = align8(HEADER + 4 * c * w * h)
+        maxstep = max(len(st) for a in acqs for st in a["steps"]) * fb
+        return {"incap": 2 * maxstep + 2 * fb + rng.randint(1, 2 * fb), "outcap": max(ab, fb) + 1 + rng.randint(0, 2 * ab),
+                "prefill": rng.choice(PREFILLS), "acqs": acqs, "tags": ["sweep-history"]}
+
+    for k1 in ks:
+        for k2 in ks:
+            for n1 in range(nmax + 1):
+                for n2 in range(nmax + 1):
+                    ty = rng.choice(sorted(INT_TYPES))
+                    c, w, h = rng.choice([(1, 1, 1), (1, 2, 1)])
+                    cases.append(wrap([acq(k1, n1, ty, c, w, h), acq(k2, n2, ty, c, w, h)], ty, c, w, h))
+                    count("sweep:every (k1,N1,k2,N2), k<=%d, N<=%d, of two acquisitions on one filter" % (ks[-1], nmax))
+    for k in (2, 3):
+        for n1 in range(4):
+            for n2 in range(4):
+                for n3 in range(4):
+                    ty = rng.choice(sorted(INT_TYPES))
+                    cases.append(wrap([acq(k, n1, ty, 1, 1, 1), acq(k, n2, ty, 1, 1, 1), acq(k, n3, ty, 1, 1, 1)], ty, 1, 1, 1))
+                    count("sweep:every (N1,N2,N3), N<=3, of three acquisitions, k=2,3")
     return cases
 
 
@@ -317,58 +445,88 @@ def split_blocks(text):
 
 
 def parse_impl(block):
-    """Harness block -> dict(slices=[(n, reset, ids)], lines=canonical lines, outs=[frame dict], ecode, left, flags)."""
-    r = {"slices": [], "canon": [], "outs": [], "ecode": None, "left": None, "notes": [], "sane": True, "complete": bool(block) and block[-1] == "END"}
+    """Harness block -> dict(acqs=[per-acquisition dict(k, slices=[(n, reset, ids)], outs=[frame dict], byp=[frame dict],
+    ecode, left, sane, notes)], canon=canonical lines of the whole history, notes, complete)."""
+    r = {"acqs": [], "canon": [], "notes": [], "complete": bool(block) and block[-1] == "END"}
+    cur = None
+
+    def fields(l0):
+        d = {}
+        for kv in l0.split()[1:]:
+            a, _, b = kv.partition("=")
+            d[a] = b
+        return d
+
     for l in block:
         l0 = l.split(" # ")[0].rstrip()
-        if l.startswith("S "):
+        if l.startswith("A "):
+            cur = {"k": int(l0.split("k=")[1]), "slices": [], "outs": [], "byp": [], "ecode": None, "left": None, "notes": [], "sane": True}
+            r["acqs"].append(cur)
+            r["canon"].append(l0)
+        elif l.startswith("NEW") or l == "END":
+            r["canon"].append(l0)
+        elif cur is None:
+            r["notes"].append(l0)
+            r["canon"].append(l0)
+        elif l.startswith("S "):
             w = l0.split()
             ids = [] if w[3] == "ids=-" else [int(x) for x in w[3][4:].split(",")]
-            r["slices"].append((int(w[1]), w[2] == "reset=1", ids))
+            cur["slices"].append((int(w[1]), w[2] == "reset=1", ids))
             r["canon"].append(l0)
         elif l.startswith("O "):
             r["canon"].append(l0)
-            d = {}
-            for kv in l0.split()[1:]:
-                a, _, b = kv.partition("=")
-                d[a] = b
-            r["outs"].append(d)
+            cur["outs"].append(fields(l0))
+        elif l.startswith("B "):
+            cur["byp"].append(fields(l0))       # the source's own frames (averaging off): not the filter's output
         elif l.startswith("T "):
             w = dict(kv.split("=") for kv in l0.split()[1:])
-            r["ecode"] = int(w["ecode"])
+            cur["ecode"] = int(w["ecode"])
             if w.get("running") != "0" or w.get("stopping") != "0" or w.get("lockerr") != "0":
-                r["sane"] = False
-                r["notes"].append(l0)
-            r["canon"].append("T ecode=%d" % r["ecode"])
+                cur["sane"] = False
+                cur["notes"].append(l0)
+            r["canon"].append("T ecode=%d" % cur["ecode"])
         elif l.startswith("L "):
-            r["left"] = int(l0.split("n=")[1])
-        elif l.startswith("NEW") or l == "END":
-            r["canon"].append(l0)
+            cur["left"] = int(l0.split("n=")[1])
         else:
             r["notes"].append(l0)
+            cur["notes"].append(l0)
             r["canon"].append(l0)
     return r
 
 
+def finished(case, ir):
+    """Did every acquisition of the case run to the end of its filter thread?"""
+    return (ir is not None and ir["complete"] and len(ir["acqs"]) == len(case["acqs"])
+            and all(a["ecode"] is not None for a in ir["acqs"]))
+
+
 def model_input(case, impl):
-    """The frames of the case, cut the way the filter's reads saw them (one step per process_data call)."""
-    fr = frames_of(case)
-    ls = ["new %d %d %d %02x" % (case["k"], case["incap"], case["outcap"], case["prefill"])]
-    pos = 0
+    """The frames of the case, cut the way the filter's reads saw them (one step per process_data call), acquisition by
+    acquisition.  With averaging off the filter's input is empty (the frames went to the sink)."""
+    ls = []
     ok = True
-    for j, (n, reset, ids) in enumerate(impl["slices"]):
-        if j:
-            ls.append("p")
-        chunk = fr[pos:pos + n]
-        if [f[6] for f in chunk] != ids:
-            ok = False          # the slice does not hold the frames that were written, in order
-        pos += n
-        for op in chunk:
-            ls.append("f %d %d %d %d %d %d %s" % tuple(op[1:]))
-        if reset:
-            ls.append("r")
+    used = []
+    for a, acq in enumerate(case["acqs"]):
+        ls.append("new %d %d %d %02x" % (acq["k"], case["incap"], case["outcap"], case["prefill"]) if a == 0 else "acq %d" % acq["k"])
+        fr = [] if bypass(acq) else frames_of(acq)
+        pos = 0
+        slices = impl["acqs"][a]["slices"] if a < len(impl["acqs"]) else []
+        for j, (n, reset, ids) in enumerate(slices):
+            if j:
+                ls.append("p")
+            chunk = fr[pos:pos + n]
+            if [f[6] for f in chunk] != ids:
+                ok = False          # the slice does not hold the frames that were written, in order
+            pos += n
+            for op in chunk:
+                ls.append("f %d %d %d %d %d %d %s" % tuple(op[1:]))
+            if reset:
+                ls.append("r")
+        if a < len(impl["acqs"]) and bypass(acq) and [int(b["id"]) for b in impl["acqs"][a]["byp"]] != [f[6] for f in frames_of(acq)]:
+            ok = False              # harness sanity: the bypassed frames reach the sink as written
+        used.append(pos)
     ls.append("end")
-    return ls, ok, pos
+    return ls, ok, used
 
 
 def run_exe(exe, lines, timeout=300):
@@ -439,7 +597,26 @@ STATS = {"oracle:pixels compared with the exact rational mean": 0, "oracle:pixel
 
 
 def oracle(case, ir, stats=None):
-    """Direct statement of C10 over the implementation's outputs.  Returns list of (key, message)."""
+    """C10 over every acquisition of the history: what the sink receives during acquisition a is determined by the frames
+    of acquisition a alone.  Returns list of (key, message); the key of a failure in an acquisition other than the
+    filter's first carries the suffix LATER."""
+    v = []
+    na = len(case["acqs"])
+    for a in range(min(na, len(ir["acqs"]))):
+        if ir["acqs"][a]["ecode"] is None:
+            break
+        for key, msg in oracle_acq(view(case, a), ir["acqs"][a], stats):
+            if na > 1:
+                acq = case["acqs"][a]
+                before = ", ".join("k=%d N=%d" % (b["k"], len(frames_of(b))) for b in case["acqs"][:a])
+                msg = ("acquisition %d of %d on one filter instance (window %d, %d frames%s): %s"
+                       % (a + 1, na, acq["k"], len(frames_of(acq)), "; earlier acquisitions: " + before if a else "", msg))
+            v.append((key + (LATER if a else ""), msg))
+    return v
+
+
+def oracle_acq(case, ir, stats=None):
+    """Direct statement of C10 over the outputs of ONE acquisition (case: a view).  Returns list of (key, message)."""
     v = []
     stats = stats if stats is not None else {}
     if not in_domain(case):
@@ -520,6 +697,9 @@ def oracle(case, ir, stats=None):
 
 # ----------------------------------------------------------------------------- minimisation
 def minimise(impl, case, key):
+    """Smallest history that still fails in the same way (same base key, in whichever acquisition)."""
+    bk = base_key(key)
+
     def fails_case(c):
         try:
             rc, o, e = run_exe(impl, case_lines(c), timeout=30)
@@ -527,46 +707,70 @@ def minimise(impl, case, key):
             if not b:
                 return False
             ir = parse_impl(b[0])
-            if not ir["complete"] or ir["ecode"] is None:
-                return key == "crash"
-            return any(kk == key for kk, _ in oracle(c, ir))
+            if not finished(c, ir):
+                return bk == "crash"
+            return any(base_key(kk) == bk for kk, _ in oracle(c, ir))
         except Exception:
             return False
 
     best = case
-    # 1. fewer frames (ids are kept; the oracle takes the first id of each window from the candidate itself)
-    items = [(j, op) for j, st in enumerate(case["steps"]) for op in st]
 
-    def rebuild(its, base):
-        steps = [[] for _ in base["steps"]]
-        for j, op in its:
-            steps[j].append(op)
+    def with_acqs(acqs, base):
         c = dict(base)
-        c["steps"] = steps
+        c["acqs"] = acqs
         return c
 
+    def rebuild(its, base):
+        acqs = [{"k": a["k"], "steps": [[] for _ in a["steps"]]} for a in base["acqs"]]
+        for a, j, op in its:
+            acqs[a]["steps"][j].append(op)
+        return with_acqs(acqs, base)
+
     try:
+        # 0. fewer acquisitions
+        if len(best["acqs"]) > 1:
+            idx = vlib.ddmin(list(range(len(best["acqs"]))), lambda cand: fails_case(with_acqs([best["acqs"][a] for a in cand], best)), max_tests=60)
+            c = with_acqs([best["acqs"][a] for a in idx], best)
+            if fails_case(c):
+                best = c
+        # 1. fewer frames (ids are kept; the oracle takes the first id of each window from the candidate itself)
+        items = [(a, j, op) for a, acq in enumerate(best["acqs"]) for j, st in enumerate(acq["steps"]) for op in st]
         its = vlib.ddmin(items, lambda cand: fails_case(rebuild(cand, best)), max_tests=400)
         if fails_case(rebuild(its, best)):
             best = rebuild(its, best)
         # 2. drop empty steps
-        c = dict(best)
-        c["steps"] = [st for st in best["steps"] if st] or [[]]
+        c = with_acqs([{"k": a["k"], "steps": [st for st in a["steps"] if st] or [[]]} for a in best["acqs"]], best)
         if fails_case(c):
             best = c
         # 3. one pixel
-        fr = frames_of(best)
+        fr = [f for a in best["acqs"] for f in frames_of(a)]
         if fr and all(f[1] in INT_TYPES for f in fr):
             def onepx(op):
                 if op[0] != "f":
                     return op
                 bpp = BPP[op[1]]
                 return ("f", op[1], 1, 1, 1, 1, op[6], op[7][:2 * bpp])
-            c = dict(best)
-            c["steps"] = [[onepx(op) for op in st] for st in best["steps"]]
+            c = with_acqs([{"k": a["k"], "steps": [[onepx(op) for op in st] for st in a["steps"]]} for a in best["acqs"]], best)
             c["outcap"] = max(best["outcap"], 256)
             if fails_case(c):
                 best = c
+        # 4. frame ids counted from 0 in every acquisition, as the source does
+        def renum(acq):
+            n = 0
+            steps = []
+            for st in acq["steps"]:
+                cur = []
+                for op in st:
+                    if op[0] == "f":
+                        cur.append(op[:6] + (n,) + op[7:])
+                        n += 1
+                    else:
+                        cur.append(op)
+                steps.append(cur)
+            return {"k": acq["k"], "steps": steps}
+        c = with_acqs([renum(a) for a in best["acqs"]], best)
+        if fails_case(c):
+            best = c
     except Exception:
         pass
     return best
@@ -577,7 +781,9 @@ def replay_obj(ctx, impl, case, msg):
     rc, o, e = run_exe(impl, ls, timeout=30)
     return {"what": msg, "case": ls, "impl_output": o.split("\n")[:60], "stderr": e[-1500:],
             "how": "feed the lines of `case` to .build/%s/h_filter (built by this check from %s: harness/h_filter.c + the tree's "
-                   "filter.c, channel.c, frame_iterator.c, throttler.c, components.c); O lines are the frames the sink received, "
+                   "filter.c, channel.c, frame_iterator.c, throttler.c, components.c); every `new`/`acq <k>` line starts an "
+                   "acquisition (video_filter_configure(k), video_filter_start, frames, stop, join) on the same filter instance; "
+                   "after each `A i k=..` line O lines are the frames the sink received from the filter during that acquisition, "
                    "L the input frames left unread" % (ctx.prop, vlib.REPO)}
 
 
@@ -595,9 +801,8 @@ def build(ctx):
 
 def fold(ctx, impl, results, origin):
     for case, ir, mlines, err in results:
-        fr = frames_of(case)
         sig = "\n".join(case_lines(case))
-        if ir is None or not ir["complete"] or ir["ecode"] is None:
+        if not finished(case, ir):
             if ir is None and not err:
                 continue
             if ir is not None and any(x.startswith("INFULL") or x.startswith("INREFUSED") for x in ir["notes"]):
@@ -606,39 +811,69 @@ def fold(ctx, impl, results, origin):
             ctx.violation("the implementation aborted (sanitizer report or crash) while filtering: " + (err or "")[-800:],
                           {"case": case_lines(case), "stderr": (err or "")[-3000:]}, key="crash")
             continue
-        dom = in_domain(case)
-        k = case["k"]
-        nontriv = dom and len(fr) >= k and len(ir["slices"]) >= 2
+        na = len(case["acqs"])
+        doms = [in_domain(view(case, a)) for a in range(na)]
+        nontriv = False
+        for a, acq in enumerate(case["acqs"]):
+            air = ir["acqs"][a]
+            fr = frames_of(acq)
+            k = acq["k"]
+            if doms[a] and len(fr) >= k and len(air["slices"]) >= 2:
+                nontriv = True
+            ctx.count("domain:in" if doms[a] else "domain:out (differential only)")
+            if bypass(acq):
+                continue
+            # where did the laps of the two rings fall?
+            sb, acc = [], 0
+            for st in acq["steps"]:
+                a0 = acc
+                acc += sum(1 for op in st if op[0] == "f")
+                sb.append((a0, acc))
+            cuts, acc = set(), 0
+            for n_, _, _ in air["slices"]:
+                acc += n_
+                cuts.add(acc)
+            split = [j for j, (a0, b0) in enumerate(sb) if any(a0 < x < b0 for x in cuts)]
+            if split:
+                ctx.count("rings:a packet crossed a lap of filter.in (read in two parts)")
+                if split[-1] == len(sb) - 1 or (air["left"] and air["ecode"] == 0):
+                    ctx.count("rings:the LAST packet crossed a lap of filter.in (flush needs two reads)")
+            if fr:
+                npx0 = fr[0][2] * fr[0][3] * fr[0][4]
+                if len(air["outs"]) * align8(HEADER + 4 * npx0) > case["outcap"]:
+                    ctx.count("rings:output ring lapped (accumulator mapped on its own old output)")
+            if air["ecode"] == 1:
+                ctx.count("impl:error-exit")
+        if na > 1:
+            # what the history exercises (a = an acquisition with averaging that follows another one)
+            for a in range(1, na):
+                prev, acq = case["acqs"][a - 1], case["acqs"][a]
+                if bypass(acq) or not frames_of(acq):
+                    continue
+                ctx.count("history:acquisitions with frames that follow another acquisition on the same filter")
+                lastavg = next((b for b in reversed(case["acqs"][:a]) if not bypass(b)), None)
+                if lastavg is not None and doms[case["acqs"].index(lastavg)] and len(frames_of(lastavg)) % lastavg["k"]:
+                    ctx.count("history:... the previous averaging acquisition ended INSIDE a window (trailing frame flushed)")
+                if bypass(prev) and lastavg is not None:
+                    ctx.count("history:... averaging on -> off -> on again")
+                if lastavg is not None and lastavg["k"] != acq["k"]:
+                    ctx.count("history:... window size differs from the previous averaging acquisition")
+                pf, cf = frames_of(prev), frames_of(acq)
+                if pf and (pf[0][1] != cf[0][1] or pf[0][2:6] != cf[0][2:6]):
+                    ctx.count("history:... sample type or shape differs from the previous acquisition")
+                if ir["acqs"][a - 1]["ecode"] == 1:
+                    ctx.count("history:... the previous acquisition's thread ended with an error")
+                if not pf:
+                    ctx.count("history:... the previous acquisition had no frame")
         ctx.case(sig, nontrivial=nontriv)
-        ctx.count("domain:in" if dom else "domain:out (differential only)")
-        # where did the laps of the two rings fall?
-        sb, acc = [], 0
-        for st in case["steps"]:
-            a0 = acc
-            acc += sum(1 for op in st if op[0] == "f")
-            sb.append((a0, acc))
-        cuts, acc = set(), 0
-        for n_, _, _ in ir["slices"]:
-            acc += n_
-            cuts.add(acc)
-        split = [j for j, (a0, b0) in enumerate(sb) if any(a0 < x < b0 for x in cuts)]
-        if split:
-            ctx.count("rings:a packet crossed a lap of filter.in (read in two parts)")
-            if split[-1] == len(sb) - 1 or (ir["left"] and ir["ecode"] == 0):
-                ctx.count("rings:the LAST packet crossed a lap of filter.in (flush needs two reads)")
-        if fr:
-            npx0 = fr[0][2] * fr[0][3] * fr[0][4]
-            if len(ir["outs"]) * align8(HEADER + 4 * npx0) > case["outcap"]:
-                ctx.count("rings:output ring lapped (accumulator mapped on its own old output)")
         if case["prefill"] != 0:
             ctx.count("rings:non-zero prefill")
-        if ir["ecode"] == 1:
-            ctx.count("impl:error-exit")
-        if not ir["sane"]:
-            ctx.broken_tie("harness sanity: lock discipline / thread flags after video_filter_thread", {"case": case_lines(case), "notes": ir["notes"]})
+        if not all(a["sane"] for a in ir["acqs"]):
+            ctx.broken_tie("harness sanity: lock discipline / thread flags after video_filter_thread",
+                           {"case": case_lines(case), "notes": [n for a in ir["acqs"] for n in a["notes"]]})
         if not ir["idsok"]:
             ctx.broken_tie("the slices read by process_data do not hold the written frames in order (ring problem, C01/C05)",
-                           {"case": case_lines(case), "slices": ir["slices"]})
+                           {"case": case_lines(case), "slices": [a["slices"] for a in ir["acqs"]]})
         # property oracle on the implementation's own output
         st = {}
         viols = oracle(case, ir, st)
@@ -664,10 +899,15 @@ def fold(ctx, impl, results, origin):
 
 
 def report(ctx, impl):
-    """One violation per failure class: the smallest failing case of the run, minimised further."""
+    """One violation per failure class: the smallest failing case of the run, minimised further.  A class found only in
+    later acquisitions keeps the suffix LATER when its minimised replay still needs an earlier acquisition."""
     found = ctx.extra.pop("_found", {})
-    for key in sorted(found):
+    done = set()
+    for key in sorted(found, key=lambda kk: (LATER in kk, kk)):
         n, size, case, msg = found[key]
+        if base_key(key) in done:       # the plain class is already reported with a one-acquisition replay
+            ctx.count("violations:" + key, n)
+            continue
         small = minimise(impl, case, key)
         ir = None
         try:
@@ -675,10 +915,12 @@ def report(ctx, impl):
             ir = parse_impl(b[0]) if b else None
         except Exception:       # noqa: BLE001
             pass
-        msgs = [m for kk, m in oracle(small, ir)] if ir and ir["ecode"] is not None else []
-        mm = next((m for kk, m in oracle(small, ir) if kk == key), msg) if msgs else msg
-        ctx.violation("%s  [%d failing case(s) of this class in the run; smallest one minimised]" % (mm, n),
-                      replay_obj(ctx, impl, small, mm), key=key)
+        vs = [(kk, m) for kk, m in oracle(small, ir) if base_key(kk) == base_key(key)] if finished(small, ir) else []
+        fkey, mm = (min(vs, key=lambda km: LATER in km[0]) if vs else (key, msg))
+        if LATER not in fkey:
+            done.add(base_key(fkey))
+        ctx.violation("%s  [%d failing case(s) of class %s in the run; smallest one minimised]" % (mm, n, key),
+                      replay_obj(ctx, impl, small, mm), key=fkey)
         ctx.count("violations:" + key, n)
 
 
@@ -686,17 +928,27 @@ def run(ctx):
     ctx.coq_prove(["Properties_C10"])
     orac, impl = build(ctx)
     thorough = ctx.tier == "thorough"
-    ctx.rule = ("a case = window size k (2..5 68%, 6..20 20%, 32..256 9%, 257..512 3%), one integer sample type (u8,u16,i8,i16,u10,u12,u14), "
+    ctx.rule = ("a case = a history of ONE filter instance: 1 acquisition (the cases described next) or 2-4 acquisitions "
+                "(video_filter_configure(k), video_filter_start, frames, stop, join -- each acquisition drawn like a single case with "
+                "smaller images, 15% of them with averaging off (k = 0/1: the source bypasses the filter), 45% re-using window, type "
+                "and shape of the acquisition before, the others changing them) on the same struct video_filter_s and the same rings; "
+                "every acquisition's output is compared with the model and, where in the domain, with the oracle.  "
+                "An acquisition = window size k (2..5 68%, 6..20 20%, 32..256 9%, 257..512 3%), one integer sample type (u8,u16,i8,i16,u10,u12,u14), "
                 "an image shape (channels 1..3, width, height, planes; camera strides), N = q*k + r frames (r != 0 in 70%), pixel values "
                 "(random / all max / all min / small / alternating extremes / edges / full 16-bit container for u10-u14), a packetisation "
                 "(one packet, one frame per packet, random cuts with or without empty packets), ring capacities of a few frames, a non-zero "
                 "prefill byte for both rings; 19% of the cases leave the property's domain on purpose (shape change, f32/unknown type, "
                 "type switch, reset signal, accumulator larger than the output ring) and are compared with the model only; "
-                "plus an exhaustive sweep: every packetisation (2^(N-1) compositions) of N <= 7 (quick) / 9 (thorough) frames for k = 2,3 (,4,5). "
-                "The real video_filter_thread runs them; non-trivial = in the domain, at least one complete window and at least two "
-                "process_data calls; distinct = distinct case text")
+                "plus an exhaustive sweep: every packetisation (2^(N-1) compositions) of N <= 7 (quick) / 9 (thorough) frames for k = 2,3 (,4,5); "
+                "plus an exhaustive sweep over histories: every (k1,N1,k2,N2), k in 1..3 (4), N in 0..6 (8), of two acquisitions and "
+                "every (N1,N2,N3), N <= 3, of three acquisitions with k = 2,3. "
+                "The real video_filter_thread runs them (started by video_filter_start through the stub thread_create); non-trivial = "
+                "some acquisition is in the domain, has at least one complete window and at least two process_data calls; "
+                "distinct = distinct case text")
     ctx.assumptions = [
         "single filter thread; source and sink are played by the harness at the filter's scheduling points (throttler sleep, blocking write_map)",
+        "between two acquisitions the filter thread has been joined and the sink has drained its ring (acquire_stop); input frames the "
+        "filter left unread (reported as a violation of that acquisition) are removed by the harness before the next acquisition",
         "x86-64 SSE/AVX single precision: x[i] += y[i] and x[i] *= inv are binary32 operations, round to nearest even, no excess precision, no FMA contraction (there is no a*b+c)",
         "frame_count and k below 2^24 so that (float)frame_count is exact; 64-bit wrap of frame_count not modelled",
         "no NaN in the ring memory the accumulator lands on (prefill byte 0xff excluded): NaN payload propagation of the hardware is not modelled",
@@ -733,10 +985,15 @@ def run(ctx):
         fold(ctx, impl, run_batch(orac, impl, corpus), "corpus")
         ctx.count("corpus cases", len(corpus))
     ncases = 30000 if thorough else 6000
+    nhist = 12000 if thorough else 2500
     cases = sweep_cases(ctx.rng, thorough, count)
+    cases += sweep_histories(ctx.rng, thorough, count)
     cases += [gen_case(ctx.rng, thorough, count) for _ in range(ncases)]
-    for c in cases[-3:]:
+    for c in cases[-2:]:
         ctx.sample({"case": [l[:160] for l in case_lines(c)[:12]], "tags": c["tags"]})
+    cases += [gen_history(ctx.rng, thorough, count) for _ in range(nhist)]
+    for c in cases[-3:]:
+        ctx.sample({"case": [l[:160] for l in case_lines(c)[:24]], "tags": c["tags"]})
     shards = [s for s in vlib.shard(cases, vlib.NPROC * (4 if thorough else 1)) if s]
     results = vlib.parallel(lambda sh: run_batch(orac, impl, sh), shards)
     for rs in results:
